@@ -694,6 +694,11 @@ def gen_ia32_linux(rng, force=None):
             word = (rng.randrange(1, 1 << 20) << 12) | pick(rng, [1, 0x67, 0x25, 0x163]) | (rng.getrandbits(3) << 9)
             if rng.random() < 0.3:
                 word |= rng.getrandbits(20) << 32
+            if rng.random() < 0.12:
+                # ... and a first word below 0x1000 (a counter, a flag word) makes that walk end at physical 0, which is all check_pae asks for
+                word = pick(rng, [1, 1, 0x67, 0x25, 0x3, 0xfff])
+            word = f.get("look_word", word)
+            d["look_zero"] = (word & 0x000ffffffffff000) == 0
             wtb.map(0x01800000, data_page(word), 1)
             img.regions.append(("user-slot6", 0x01800000, 0x01800fff, False))
             uvas = [v for v in uvas if not (0x01800000 <= v < 0x02000000)]
